@@ -49,7 +49,7 @@ Definition spec_step (s : rst) (o : op) : rst * res :=
   match o with
   | Attach g c sk =>
       match find g 0 (r_handles s) with
-      | Some _ => (s, RPanic)
+      | Some _ => (remit s [Joined sk], RPanic)     (* the rejected sink is dropped *)
       | None => (mk_rst (r_handles s ++ [mk_ent g 0 sk true true]) (r_tlg s) (r_rtg s) (r_held s) (r_log s), ROk (of_len (r_handles s)))
       end
   | DropHandle c h =>
